@@ -112,21 +112,39 @@ def frag_init_config(eng, fdef):
 
 
 def replay_init(model, obligation):
-    """a personality given at run time (class attribute, as main() does for --route-path / --simple) survives the construction of the UCMM object"""
+    """a personality given at run time (class attribute, as main() does for --route-path / --simple) survives the construction of the UCMM object, with and
+    without a "[UCMM] Route Path" in the configuration; without one the configuration decides"""
     import cpppo
     from cpppo.server.enip import device, ucmm
-    for given in (False, 0, [], [{'port': 1, 'link': 0}], [{'port': 2, 'link': '10.0.0.1'}]):
-        device.lookup_reset()
-        class UCMM(ucmm.UCMM):
-            route_path = given
+    loader = device.Object.config_loader
+    for file_text, file_value in ((None, None), ('1/0', [{'port': 1, 'link': 0}]), ('false', False)):
+        had = loader.has_section('UCMM')
+        saved = dict(loader.items('UCMM', raw=True)) if had else None
         try:
-            obj = UCMM()
-            got = obj.route_path
+            if file_text is not None:
+                loader.read_string('[UCMM]\nRoute Path = %s\n' % file_text)
+            for given in (False, 0, [{'port': 1, 'link': 0}], [{'port': 2, 'link': '10.0.0.1'}], None):
+                device.lookup_reset()
+                class UCMM(ucmm.UCMM):
+                    route_path = given
+                try:
+                    got = UCMM().route_path
+                finally:
+                    device.lookup_reset()
+                want = given if given is not None else file_value
+                if got != want or type(got) is not type(want):
+                    return dict(confirmed=True, function='cpppo.server.enip.ucmm.UCMM.__init__',
+                                input='UCMM subclass with route_path = %r, configuration %s' % (given, 'without a Route Path' if file_text is None else '"[UCMM] Route Path = %s"' % file_text),
+                                observed='route_path %r after construction' % (got,),
+                                required='%r, %s' % (want, 'the personality given at run time' if given is not None else 'what the configuration says'))
         finally:
-            device.lookup_reset()
-        if got != given or type(got) is not type(given):
-            return dict(confirmed=True, function='cpppo.server.enip.ucmm.UCMM.__init__', input='UCMM subclass with route_path = %r' % (given,),
-                        observed='route_path %r after construction' % (got,), required='%r, the personality given at run time' % (given,))
+            if file_text is not None:
+                if had:
+                    loader.remove_option('UCMM', 'Route Path')
+                    for k, v in saved.items():
+                        loader.set('UCMM', k, v)
+                else:
+                    loader.remove_section('UCMM')
     return dict(confirmed=False)
 
 
